@@ -14,15 +14,15 @@ Open Scope N_scope.
 
 (* ---- the side condition ------------------------------------------------------------------------------------------- *)
 (* scalar values: null / booleans as emitted; numbers -?digits(.digits)?([eE][+-]?digits)?; strings that the emitter quotes
-   (needs_quotes, or an always-quote key) without a backslash directly before n / t (finding C04-escape-order).
-   No restriction on the characters of a string is needed: the quoted-string scanner does not consult the oracle.
-   (For non-ASCII strings `lines_of` presupposes NFC-stable text: each line is paired with itself.) *)
+   (needs_quotes, or an always-quote key).  Since the single-pass un-escape (Syn/Escape.unescape_escape_all) every quoted
+   string reads back, so there is no condition on the CONTENT of a string: the quoted-string scanner does not consult the
+   oracle.  (For non-ASCII strings `lines_of` presupposes NFC-stable text: each line is paired with itself.) *)
 Definition lex_safe_val (k : str) (v : value) : bool :=
   match v with
   | VNull => true
   | VBool _ => true
   | VNum _ c => num_ok c
-  | VStr s => str_eqb (force_quote k (VStr s) (emit_str false s)) (quote s) && escape_safe s
+  | VStr s => str_eqb (force_quote k (VStr s) (emit_str false s)) (quote s)
   | _ => false
   end.
 
@@ -139,8 +139,7 @@ Lemma value_text k v sv D : lex_safe_val k v = true -> sval_of v = Some sv ->
   force_quote k v (emit_value v D) = sval_text sv.
 Proof.
   destruct v; cbn [sval_of]; intros Hs E; inversion E; subst; try reflexivity.
-  cbn [lex_safe_val] in Hs. apply andb_true_iff in Hs as [Hs _].
-  apply str_eqb_eq in Hs. exact Hs.
+  cbn [lex_safe_val] in Hs. apply str_eqb_eq in Hs. exact Hs.
 Qed.
 
 Lemma lex_value k v sv st r : lex_safe_val k v = true -> sval_of v = Some sv ->
@@ -159,8 +158,7 @@ Proof.
   - cbn [lex_safe_val] in Hs. destruct (T_num cls st canon r Hs Hin Hsp) as (st' & T).
     exists st'. split; [|exact (tstep_in _ _ _ _ _ _ T)].
     eapply lexto_tstep; [exact T|reflexivity|right; reflexivity].
-  - cbn [lex_safe_val] in Hs. apply andb_true_iff in Hs as [_ Hs].
-    destruct (T_str cls st s r Hs Hin Hsp) as (st' & T). exists st'. split; [|exact (tstep_in _ _ _ _ _ _ T)].
+  - destruct (T_str cls st s r Hin Hsp) as (st' & T). exists st'. split; [|exact (tstep_in _ _ _ _ _ _ T)].
     eapply lexto_tstep; [exact T|reflexivity|right; reflexivity].
 Qed.
 
